@@ -91,6 +91,38 @@ def nSubscriptSpecifierKeyword (kwPos rp : Nat) (kw : Bytes) (e : Node) : Node :
   .mk "SubscriptSpecifierKeyword" [("KeywordPos", .pos kwPos), ("Rparen", .pos rp), ("Keyword", .str kw)]
     (.cons "Expr" none e .nil)
 
+/-- the children `a` followed by the children `b` -/
+def appKids : Kids → Kids → Kids
+  | .nil, b => b
+  | .cons f i n r, b => .cons f i n (appKids r b)
+
+/-- an optional single child (a nil child has no entry) -/
+def optKid (f : String) : Option Node → Kids
+  | none => .nil
+  | some n => .cons f none n .nil
+
+/-- `CaseExpr{Case, EndPos, Expr, Whens, Else}`; `kids` = the operand (if any), the `Whens`, the `Else` (if any) -/
+def nCaseExpr (cp ep : Nat) (kids : Kids) : Node := .mk "CaseExpr" [("Case", .pos cp), ("EndPos", .pos ep)] kids
+/-- `CaseWhen{When, Cond, Then}` -/
+def nCaseWhen (wp : Nat) (c t : Node) : Node :=
+  .mk "CaseWhen" [("When", .pos wp)] (.cons "Cond" none c (.cons "Then" none t .nil))
+/-- `CaseElse{Else, Expr}` -/
+def nCaseElse (p : Nat) (e : Node) : Node := .mk "CaseElse" [("Else", .pos p)] (.cons "Expr" none e .nil)
+/-- `IfExpr{If, Rparen, Expr, TrueResult, ElseResult}` -/
+def nIfExpr (ip rp : Nat) (c t e : Node) : Node :=
+  .mk "IfExpr" [("If", .pos ip), ("Rparen", .pos rp)]
+    (.cons "Expr" none c (.cons "TrueResult" none t (.cons "ElseResult" none e .nil)))
+
+/-- `ArrayLiteral{Array, Lbrack, Rbrack, Type, Values}` of a literal without `ARRAY` keyword (`Array = InvalidPos`) and
+without element type (`Type = nil`: no entry) -/
+def nArrayLiteral (lb rb : Nat) (values : Kids) : Node :=
+  .mk "ArrayLiteral" [("Array", .pos (-1)), ("Lbrack", .pos lb), ("Rbrack", .pos rb)] values
+
+/-- `CastExpr{Cast, Rparen, Safe, Expr, Type}` -/
+def nCastExpr (cp rp : Nat) (safe : Bool) (e t : Node) : Node :=
+  .mk "CastExpr" [("Cast", .pos cp), ("Rparen", .pos rp), ("Safe", .bool safe)]
+    (.cons "Expr" none e (.cons "Type" none t .nil))
+
 /-- `SimpleType{NamePos, Name}` -/
 def nSimpleType (p : Nat) (name : Bytes) : Node := .mk "SimpleType" [("NamePos", .pos p), ("Name", .str name)] .nil
 /-- `NamedType{Path}` -/
@@ -144,10 +176,29 @@ def toNodeP : Expr.PExpr → Node
   | .index rb e none i => nIndexExpr rb (toNodeP e) (nExprArg (toNodeP i))
   | .index rb e (some w) i =>
     nIndexExpr rb (toNodeP e) (nSubscriptSpecifierKeyword w.keywordPos w.rparen w.k.str (toNodeP i))
+  | .caseE cp ep o wp c t ws el =>
+    nCaseExpr cp ep (appKids (optKid "Expr" (toNodeO false o))
+      (appKids (.cons "Whens" (some 0) (nCaseWhen wp (toNodeP c) (toNodeP t)) (toKidsW 1 ws))
+        (optKid "Else" (toNodeO true el))))
+  | .ifE ip rp c t e => nIfExpr ip rp (toNodeP c) (toNodeP t) (toNodeP e)
+  | .array lb rb es => nArrayLiteral lb rb (toKidsV 0 es)
+  | .cast cp rp e path => nCastExpr cp rp false (toNodeP e) (nNamedType (identKidsP "Path" 0 path))
 /-- the elements of `ValuesInCondition.Exprs` from index `k` on -/
 def toKidsP : Nat → Expr.PExprs → Kids
   | _, .nil => .nil
   | k, .cons e es => .cons "Exprs" (some k) (toNodeP e) (toKidsP (k + 1) es)
+/-- the elements of `ArrayLiteral.Values` from index `k` on -/
+def toKidsV : Nat → Expr.PExprs → Kids
+  | _, .nil => .nil
+  | k, .cons e es => .cons "Values" (some k) (toNodeP e) (toKidsV (k + 1) es)
+/-- the elements of `CaseExpr.Whens` from index `k` on -/
+def toKidsW : Nat → Expr.PWhens → Kids
+  | _, .nil => .nil
+  | k, .cons wp c t ws => .cons "Whens" (some k) (nCaseWhen wp (toNodeP c) (toNodeP t)) (toKidsW (k + 1) ws)
+/-- `CaseExpr.Expr` (`kw = false`: the expression itself) or `CaseExpr.Else` (`kw = true`: a `CaseElse` node), if present -/
+def toNodeO (kw : Bool) : Expr.POExpr → Option Node
+  | .none => none
+  | .some p e => some (if kw then nCaseElse p (toNodeP e) else toNodeP e)
 end
 
 /-! ## types -/
